@@ -10,7 +10,7 @@ The transformation, in full:
   4. traits.rs keeps the primitive impls and gets Zero/One/Number/Signed for Sym appended;
   5. a fixed list of private helper fns is made `pub` so harnesses can call them;
   6. `rng.gen::<f64>()` draws a primitive double and wraps it;
-  7. Complex::sqrt / Complex::pow get a contract-stub hook as first statement (inert by default).
+  7. Complex::sqrt / Complex::pow / Polynomial::laguer get a contract-stub hook as first statement (inert by default).
 Files are only rewritten when their content changes, so cargo rebuilds only on edits.
 """
 import os, re, sys, shutil
@@ -30,6 +30,7 @@ PUBLISH = re.compile(r"^(\s*)fn (quadratic_solve|cubic_solve|poly_solve|laguer|d
 # contract-stub hooks (inert unless a harness switches the stub on): inserted on the same line as the
 # opening brace of the function so that line numbers are preserved
 STUB_HOOKS = [
+    (re.compile(r"fn laguer\( a: &mut Vector::<Cmplx>, x: &mut Cmplx, iterations: &mut usize \) \{"), 'if let Some((sr, si)) = symcore::stub_poly_root("laguer", &a.vec.iter().map(|c| (c.real, c.imag)).collect::<Vec<_>>()) { *x = Cmplx::new(sr, si); return; }'),
     (re.compile(r"pub fn sqrt\(&self\) -> Complex::<f64> \{"), 'if let Some((sr, si)) = symcore::stub_complex1("csqrt", self.real, self.imag) { return Complex::new(sr, si); }'),
     (re.compile(r"pub fn pow\(&self, w: &Complex::<f64>\) -> Complex::<f64> \{"), 'if let Some((sr, si)) = symcore::stub_complex_pow(self.real, self.imag, w.real, w.imag) { return Complex::new(sr, si); }'),
 ]
